@@ -27,3 +27,44 @@ func VerifInterleave() {
 	}
 	vReach("interleave")
 }
+
+var vnHistPre = []string{"", "/*!a*/", "/*!a*/x;", "/*!a*//*!b*/", "x=`a${b}c`;", "class A{#p;m(){this.#p}}", "l:for(;;)break l;"}
+
+func vnParseJS(src []byte, o Options) (string, bool) {
+	ast, err := Parse(parse.NewInputBytes(append(make([]byte, 0, len(src)+1), src...)), o)
+	if err != nil {
+		return "", false
+	}
+	return ast.JSString(), true
+}
+
+// VerifParseHistory: results do not depend on what was parsed before in the same process.
+// Program 1 is parsed and its tree kept; program 2 is parsed; the kept tree still prints the
+// same text, and both results equal the ones obtained first in the path (before any other call).
+func VerifParseHistory() {
+	mk := func(tag string, max int) []byte {
+		pre := vnHistPre[vRange(tag+"pre", 0, len(vnHistPre)-1)]
+		k := vRange(tag+"n", 0, max)
+		b := vBytes(tag, k)
+		vnASCII(b)
+		return append([]byte(pre), b...)
+	}
+	src1, src2 := mk("p", vParam("NP", 0)), mk("q", vParam("N", 1))
+	o := Options{}
+	first1, ok1 := vnParseJS(src1, o)
+	first2, ok2 := vnParseJS(src2, o)
+	// the history under test
+	ast1, err1 := Parse(parse.NewInputBytes(append(make([]byte, 0, len(src1)+1), src1...)), o)
+	vAssert((err1 == nil) == ok1, "parse-result-depends-on-history")
+	before := ""
+	if err1 == nil {
+		before = ast1.JSString()
+		vAssert(before == first1, "parse-result-depends-on-history")
+	}
+	again2, ok2b := vnParseJS(src2, o)
+	vAssert(ok2b == ok2 && again2 == first2, "parse-result-depends-on-history")
+	if err1 == nil {
+		vAssert(ast1.JSString() == before, "earlier-tree-changed-by-later-parse")
+	}
+	vReach("history")
+}
